@@ -564,7 +564,7 @@ var rR11 = RuleRef{Name: "R11", Doc: "fragmentation independence, structural par
 	}
 	c.Count("R11_read_sites", n)
 	c.Min("R11_read_sites", 2)
-	// parser state reset after a protocol error
+	// parser state reset after a protocol error (the report and the reset may live in helpers)
 	var stateCell ssa.Value
 	for _, b := range parse.Blocks {
 		for _, in := range b.Instrs {
@@ -577,7 +577,6 @@ var rR11 = RuleRef{Name: "R11", Doc: "fragmentation independence, structural par
 		c.Undecided("R11", "the parser's readState allocation")
 		return
 	}
-	eofG := ""
 	isErrSend := func(in ssa.Instruction) bool {
 		snd, ok := in.(*ssa.Send)
 		if !ok {
@@ -587,7 +586,6 @@ var rR11 = RuleRef{Name: "R11", Doc: "fragmentation independence, structural par
 		if !ok {
 			return false
 		}
-		// ParsedRes literal: look at the store into its Err field
 		for _, r := range *al.Referrers() {
 			fa, ok := r.(*ssa.FieldAddr)
 			if !ok || fieldName(fa) != "Err" {
@@ -597,13 +595,11 @@ var rR11 = RuleRef{Name: "R11", Doc: "fragmentation independence, structural par
 				if s, ok := rr.(*ssa.Store); ok && !isNilConst(s.Val) {
 					if u, ok := s.Val.(*ssa.UnOp); ok {
 						if g, ok := u.X.(*ssa.Global); ok && g.Name() == "EOF" {
-							eofG = "EOF"
 							return false
 						}
 					}
-					// a constructed error, or a value known to be non-nil on this path
 					switch s.Val.(type) {
-					case *ssa.Call, *ssa.MakeInterface:
+					case *ssa.Call, *ssa.MakeInterface, *ssa.Parameter:
 						return true
 					}
 					for d := snd.Block(); d != nil; d = d.Idom() {
@@ -621,44 +617,132 @@ var rR11 = RuleRef{Name: "R11", Doc: "fragmentation independence, structural par
 		}
 		return false
 	}
-	tr := func(in ssa.Instruction, s Set) (Set, bool) {
-		if isErrSend(in) {
-			s["ERRSENT|"+c.pos(in.Pos())] = true
+	stateParam := func(fn *ssa.Function) ssa.Value {
+		for _, p := range fn.Params {
+			if namedOf(p.Type()) == "readState" {
+				return p
+			}
 		}
-		if st, ok := in.(*ssa.Store); ok && st.Addr == stateCell {
-			s = Set{}
-		}
-		return s, false
+		return nil
 	}
-	fl := &Flow{Fn: parse, Must: false, Entry: Set{}, Transfer: tr}
-	fl.Run()
-	// the read at the top of the loop: call readLine
+	type summ struct{ pending, resets, sends bool }
+	memo := map[*ssa.Function]*summ{}
+	var flowOf func(fn *ssa.Function, cell ssa.Value, depth int) (*Flow, *summ)
+	flowOf = func(fn *ssa.Function, cell ssa.Value, depth int) (*Flow, *summ) {
+		sm := &summ{}
+		tr := func(in ssa.Instruction, s Set) (Set, bool) {
+			if isErrSend(in) {
+				s["ERRSENT|"+c.pos(in.Pos())] = true
+				sm.sends = true
+			}
+			if st, ok := in.(*ssa.Store); ok && cell != nil && st.Addr == cell {
+				s = Set{"RESET": true}
+			}
+			if call, ok := in.(*ssa.Call); ok && depth < 3 {
+				if cf := callee(call); cf != nil && firstParty(cf) && pkgRel(cf) == "resp" && cf != fn {
+					if sp := stateParam(cf); sp != nil {
+						// only when our own state is what is passed on
+						passes := false
+						for i, a := range call.Call.Args {
+							if i < len(cf.Params) && cf.Params[i] == sp && (a == cell) {
+								passes = true
+							}
+						}
+						if passes {
+							h := memo[cf]
+							if h == nil {
+								_, h = flowOf(cf, sp, depth+1)
+								memo[cf] = h
+							}
+							if h.resets {
+								s = Set{"RESET": true}
+							}
+							if h.sends {
+								sm.sends = true
+							}
+							if h.pending {
+								s["ERRSENT|"+c.pos(in.Pos())] = true
+							}
+						}
+					}
+				}
+			}
+			return s, false
+		}
+		fl := &Flow{Fn: fn, Must: false, Entry: Set{}, Transfer: tr}
+		fl.Run()
+		// summary at returns
+		resetsAll, any := true, false
+		for _, b := range fn.Blocks {
+			if len(b.Instrs) == 0 {
+				continue
+			}
+			if ret, ok := b.Instrs[len(b.Instrs)-1].(*ssa.Return); ok {
+				if s, live := fl.Before(ret); live {
+					any = true
+					for f := range s {
+						if strings.HasPrefix(f, "ERRSENT|") {
+							sm.pending = true
+						}
+					}
+					if !s["RESET"] || len(s) != 1 {
+						resetsAll = false
+					}
+				}
+			}
+		}
+		sm.resets = resetsAll && any
+		return fl, sm
+	}
+	fl, _ := flowOf(parse, stateCell, 0)
 	nSend := 0
+	for _, fn := range c.P.allFuncs("resp") {
+		for _, b := range fn.Blocks {
+			for _, in := range b.Instrs {
+				if isErrSend(in) {
+					nSend++
+				}
+			}
+		}
+	}
 	for _, b := range parse.Blocks {
 		for _, in := range b.Instrs {
-			if isErrSend(in) {
-				nSend++
-			}
 			if call, ok := in.(*ssa.Call); ok && callName(call) == "readLine" {
 				s, live := fl.Before(call)
 				var bad []string
 				if live {
-					bad = s.Sorted()
+					for f := range s {
+						if strings.HasPrefix(f, "ERRSENT|") {
+							bad = append(bad, f)
+						}
+					}
 				}
-				c.Add("R11", fnName(parse), "state is reset after every protocol-error report before the next read", call.Pos(), len(bad) == 0, "error reports not followed by *state = readState{}: "+strings.Join(bad, ", "))
+				sort.Strings(bad)
+				c.Add("R11", fnName(parse), "state is reset after every protocol-error report before the next read", call.Pos(), len(bad) == 0, "error reports not followed by a reset of the parser state: "+strings.Join(bad, ", "))
 			}
 		}
 	}
 	c.Count("R11_error_reports", nSend)
 	c.Min("R11_error_reports", 3)
-	_ = eofG
 }}
 
 // R12s: a torn WAL tail is repaired on reopen.
 var rR12s = RuleRef{Name: "R12s", Doc: "sibling agreement on the WAL error protocol: the function that replays the WAL at start-up handles io.ErrUnexpectedEOF from ReadAll by closing, calling wal.Repair and reopening (as etcdserver's openWALFromSnapshot does) instead of treating it as fatal", Run: func(c *C) {
-	fn := c.P.Func("raftexample", "RaftNode.replayWAL")
+	// the function that reads the WAL back at start-up: the raftexample function that calls (*wal.WAL).ReadAll
+	var fn *ssa.Function
+	for _, f := range c.P.allFuncs("raftexample") {
+		for _, b := range f.Blocks {
+			for _, in := range b.Instrs {
+				if ci, ok := in.(ssa.CallInstruction); ok && callName(ci) == "ReadAll" {
+					if cf := callee(ci); cf != nil && cf.Signature.Recv() != nil && namedOf(cf.Signature.Recv().Type()) == "WAL" {
+						fn = f
+					}
+				}
+			}
+		}
+	}
 	if fn == nil {
-		c.Undecided("R12s", "anchor raftexample.(*RaftNode).replayWAL")
+		c.Undecided("R12s", "the raftexample function that calls (*wal.WAL).ReadAll")
 		return
 	}
 	var repair, readAll ssa.Instruction
@@ -723,42 +807,14 @@ var rR18 = RuleRef{Name: "R18", Doc: "the apply loop cannot block: every executo
 	if filter == nil {
 		c.Undecided("R18", "anchor server.ClusterCmdFilter")
 	} else {
-		for _, b := range filter.Blocks {
-			for _, in := range b.Instrs {
-				if bo, ok := in.(*ssa.BinOp); ok && bo.Op == token.EQL {
-					for _, side := range []ssa.Value{bo.X, bo.Y} {
-						if s, ok := constString(side); ok {
-							rejected[s] = true
-						}
-					}
-				}
-			}
-		}
+		comparedStrings(helperScope(filter, 2), rejected)
 	}
 	// commands the cluster connection handler executes locally (never proposed)
 	for _, h := range c.connHandlers() {
-		proposes := false
-		for _, b := range h.Blocks {
-			for _, in := range b.Instrs {
-				if snd, ok := in.(*ssa.Send); ok && strings.Contains(snd.Chan.Type().String(), "RaftProposal") {
-					proposes = true
-				}
-			}
-		}
-		if !proposes {
+		if !sendsProposal(h) {
 			continue
 		}
-		for _, b := range h.Blocks {
-			for _, in := range b.Instrs {
-				if bo, ok := in.(*ssa.BinOp); ok && bo.Op == token.EQL {
-					for _, side := range []ssa.Value{bo.X, bo.Y} {
-						if s, ok := constString(side); ok {
-							rejected[s] = true
-						}
-					}
-				}
-			}
-		}
+		comparedStrings(helperScope(h, 2), rejected)
 	}
 	names := make([]string, 0, len(c.Facts.Executors))
 	for n := range c.Facts.Executors {
@@ -863,17 +919,7 @@ func isLoopBody(b *ssa.BasicBlock) bool {
 var rR24 = RuleRef{Name: "R24", Doc: "replica determinism and snapshots: executors (all of which run in the apply loop in cluster mode) must not feed wall-clock time, randomness or Go's map iteration order into stored state; every dynamic type stored in the keyspace must be representable by the snapshot encoder GetSnapshot uses; a function that restores the keyspace from snapshot bytes must exist and be wired to start-up and to the nil-commit signal", Run: func(c *C) {
 	rejected := map[string]bool{}
 	if filter := c.P.Func("server", "ClusterCmdFilter"); filter != nil {
-		for _, b := range filter.Blocks {
-			for _, in := range b.Instrs {
-				if bo, ok := in.(*ssa.BinOp); ok && bo.Op == token.EQL {
-					for _, side := range []ssa.Value{bo.X, bo.Y} {
-						if s, ok := constString(side); ok {
-							rejected[s] = true
-						}
-					}
-				}
-			}
-		}
+		comparedStrings(helperScope(filter, 2), rejected)
 	}
 	var roots []*ssa.Function
 	for name, fn := range c.Facts.Executors {
@@ -885,11 +931,106 @@ var rR24 = RuleRef{Name: "R24", Doc: "replica determinism and snapshots: executo
 	execReach := c.reachableFirstParty(roots)
 	subsIdle := c.listSubscriptionsNeverPopulated()
 	n := 0
+	// functions that are only ever started as goroutines (timers) are not part of the applied command
+	onlyGo := func(fn *ssa.Function) bool {
+		if fn.Parent() != nil {
+			_, isGo := firstUseOfClosure(fn.Parent(), fn).(*ssa.Go)
+			return isGo
+		}
+		calls, gos := 0, 0
+		for g := range execReach {
+			for _, b := range g.Blocks {
+				for _, in := range b.Instrs {
+					if ci, ok := in.(ssa.CallInstruction); ok && callee(ci) == fn {
+						calls++
+						if _, isGo := in.(*ssa.Go); isGo {
+							gos++
+						}
+					}
+				}
+			}
+		}
+		return calls > 0 && calls == gos
+	}
+	setTTLfn := c.P.Func("memdb", "MemDb.SetTTL")
+	purposeOf := func(call *ssa.Call) string {
+		purpose := ""
+		seen := map[ssa.Value]bool{}
+		var fwd func(v ssa.Value, d int)
+		fwd = func(v ssa.Value, d int) {
+			if seen[v] || d > 8 || v.Referrers() == nil || purpose != "" {
+				return
+			}
+			seen[v] = true
+			for _, r := range *v.Referrers() {
+				switch x := r.(type) {
+				case *ssa.BinOp:
+					switch x.Op {
+					case token.LSS, token.GTR, token.LEQ, token.GEQ, token.EQL, token.NEQ:
+						other := x.X
+						if other == v {
+							other = x.Y
+						}
+						isDeadline := false
+						backslice(other, func(y ssa.Value) bool {
+							if fa, ok := y.(*ssa.FieldAddr); ok && fieldName(fa) == "value" && namedOf(fa.X.Type()) == "TTLInfo" {
+								isDeadline = true
+							}
+							return !isDeadline
+						})
+						if isDeadline {
+							purpose = "the local clock is compared with a stored deadline (lazy expiry / TTL reply)"
+						}
+					case token.ADD, token.SUB, token.MUL, token.QUO:
+						fwd(x, d+1)
+					}
+					// TTL reply: deadline - now
+					if x.Op == token.SUB && purpose == "" {
+						backslice(x.X, func(y ssa.Value) bool {
+							if fa, ok := y.(*ssa.FieldAddr); ok && fieldName(fa) == "value" && namedOf(fa.X.Type()) == "TTLInfo" {
+								purpose = "the local clock is compared with a stored deadline (lazy expiry / TTL reply)"
+							}
+							return purpose == ""
+						})
+					}
+				case *ssa.Call:
+					if cf := x.Call.StaticCallee(); cf != nil {
+						if cf == setTTLfn {
+							purpose = "a TTL deadline is computed from the local clock (SetTTL argument)"
+						} else if cf.Pkg != nil && cf.Pkg.Pkg.Path() == "time" {
+							fwd(x, d+1) // .Unix(), .UnixMilli(), Sub ...
+						}
+					}
+				case *ssa.Store:
+					if fa, ok := x.Addr.(*ssa.FieldAddr); ok {
+						if namedOf(fa.X.Type()) == "StreamID" {
+							purpose = "a generated stream ID takes its time part from the local clock"
+						}
+						if namedOf(fa.X.Type()) == "TTLInfo" {
+							purpose = "a TTL deadline is computed from the local clock (SetTTL argument)"
+						}
+					}
+					if al, ok := x.Addr.(*ssa.Alloc); ok {
+						for _, rr := range *al.Referrers() {
+							if ld, ok := rr.(*ssa.UnOp); ok {
+								fwd(ld, d+1)
+							}
+						}
+					}
+				case *ssa.Phi, *ssa.Convert, *ssa.Extract, *ssa.MakeInterface:
+					fwd(x.(ssa.Value), d+1)
+				case *ssa.Return:
+					purpose = "returned:" + fnName(call.Parent())
+				}
+			}
+		}
+		fwd(call, 0)
+		return purpose
+	}
 	for fn := range execReach {
-		if pkgRel(fn) != "memdb" {
+		if pkgRel(fn) != "memdb" || onlyGo(fn) {
 			continue
 		}
-		ord := map[string]int{}
 		for _, b := range fn.Blocks {
 			for _, in := range b.Instrs {
 				call, ok := in.(*ssa.Call)
@@ -913,18 +1054,17 @@ var rR24 = RuleRef{Name: "R24", Doc: "replica determinism and snapshots: executo
 				if src == "" {
 					continue
 				}
-				if fn.Parent() != nil {
-					if _, isGo := firstUseOfClosure(fn.Parent(), fn).(*ssa.Go); isGo {
-						continue // timer goroutines are not part of the applied command
-					}
-				}
 				n++
-				con := src + " feeds replicated state or replies"
-				ord[con]++
-				if ord[con] > 1 {
-					con = fmt.Sprintf("%s#%d", con, ord[con])
+				purpose := ""
+				if src == "time.Now" {
+					purpose = purposeOf(call)
 				}
-				c.Add("R24", fnName(fn), con, call.Pos(), false, "each replica evaluates this separately when it applies the log entry")
+				if strings.HasPrefix(purpose, "returned:") || purpose == "" {
+					// unclassified use: keyed by the function that contains it
+					c.Add("R24", fnName(fn), src+" is used on the replicated path (unclassified)", call.Pos(), false, "each replica evaluates this separately when it applies the log entry")
+					continue
+				}
+				c.Add("R24", "memdb", purpose, call.Pos(), false, "each replica evaluates "+src+" separately when it applies the log entry")
 			}
 		}
 	}
@@ -1254,3 +1394,34 @@ var rR17cb = RuleRef{Name: "R17cb", Doc: "the table that maps proposal ids to wa
 		}
 	}
 }}
+
+// comparedStrings collects the string constants that the given functions compare a value with (== or switch cases).
+func comparedStrings(fns []*ssa.Function, out map[string]bool) {
+	for _, fn := range fns {
+		for _, b := range fn.Blocks {
+			for _, in := range b.Instrs {
+				if bo, ok := in.(*ssa.BinOp); ok && bo.Op == token.EQL {
+					for _, side := range []ssa.Value{bo.X, bo.Y} {
+						if s, ok := constString(side); ok {
+							out[s] = true
+						}
+					}
+				}
+			}
+		}
+	}
+}
+
+// sendsProposal: the handler (or a helper it calls) sends a *RaftProposal on a channel.
+func sendsProposal(h *ssa.Function) bool {
+	for _, fn := range helperScope(h, 2) {
+		for _, b := range fn.Blocks {
+			for _, in := range b.Instrs {
+				if snd, ok := in.(*ssa.Send); ok && strings.Contains(snd.Chan.Type().String(), "RaftProposal") {
+					return true
+				}
+			}
+		}
+	}
+	return false
+}
